@@ -11,7 +11,7 @@ func init() {
 	register(&Property{
 		ID:          "C14",
 		Explanation: "Seek algebra and access gating of the file handle, decided from the source: (whence-algebra) in every function taking (offset int64, whence int) each arm of every switch over whence with io.SeekStart/SeekCurrent/SeekEnd labels produces a value in which the coefficient of offset is +1 (linear normalisation of the arm's expression; sibling arms that disagree in sign are a contradiction), the Start arm has no base term, the End arm's base is the size; (seek-returns-position) every success return of that function yields the computed absolute target, a whence-arm expression, the delegate's Seek result or the directory no-op constant - never the byte count of io.CopyN; (access-gating) read paths are reachable only across the true edge of flags.Read, enterWriteMode only across flags.Write, O_TRUNC/O_APPEND are consumed exactly in enterWriteMode; (flush-on-close) closeWithoutLocking reaches cleanWriteBuf only across the success edge of syncWithoutLocking, which passes replace=true, skipSizeCheck=true to Update.",
-		NotDecided:  "Byte/offset equality with a reference file, the grow-by-Truncate zeroing defect (no structural rule separates it from a legitimate rewrite), short reads, EOF signalling, write-cache behaviour.",
+		NotDecided:  "Byte/offset equality with a reference file, short reads, EOF signalling, write-cache behaviour.",
 		Assumptions: []string{"cache.WriteCache implementations follow io.Seeker/io.Writer contracts"},
 		Rules:       []func(*Ctx){ruleC14Whence, ruleC14AccessGating, ruleC14FlushOnClose},
 	})
